@@ -201,6 +201,105 @@ pub fn run_tcp(bin: &PathBuf, tag: &str, file: &[u8], args: &str, extra_lines: &
     Ok(RealOut { status: status?, stdout: vec![], stderr, lines })
 }
 
+
+/// `-s -w` dialog around the start: connect, wait for `ready`, send `pre_lines` (while the emulator still waits for
+/// its start), `cmd:start`, `post_lines`; then two sentinel rounds (`u8:<flag>:<nonce>`, each answered by the guest
+/// with `ioport:b:<nonce>:`) so that the guest has gone round its loop at least once after the last line; then
+/// `cmd:stop`. Returns every line received.
+pub fn run_tcp_dialog(bin: &PathBuf, tag: &str, file: &[u8], pre_lines: &[String], post_lines: &[String], flag: u32, timeout: Duration) -> Result<Vec<String>, RealErr> {
+    let path = temp_elf(tag, file)?;
+    let port = free_port();
+    let mut child = Command::new(bin)
+        .arg("--elf")
+        .arg(&path)
+        .arg("-s")
+        .arg("-w")
+        .arg("-p")
+        .arg(port.to_string())
+        .arg("--log")
+        .arg("off")
+        .env_remove("RUST_LOG")
+        .env("RUST_BACKTRACE", "0")
+        .stdin(Stdio::null())
+        .stdout(Stdio::null())
+        .stderr(Stdio::null())
+        .spawn()
+        .map_err(|e| RealErr::Inconclusive(format!("spawn {}: {}", bin.display(), e)))?;
+    let deadline = Instant::now() + timeout;
+    let cleanup = |child: &mut Child, path: &PathBuf| {
+        let _ = child.kill();
+        let _ = child.wait();
+        let _ = std::fs::remove_file(path);
+    };
+    let mut stream = loop {
+        match std::net::TcpStream::connect(("127.0.0.1", port)) {
+            Ok(s) => break s,
+            Err(e) => {
+                if Instant::now() > deadline || child.try_wait().ok().flatten().is_some() {
+                    cleanup(&mut child, &path);
+                    return Err(RealErr::Inconclusive(format!("cannot connect to the emulator on port {}: {}", port, e)));
+                }
+                std::thread::sleep(Duration::from_millis(2));
+            }
+        }
+    };
+    let _ = stream.set_read_timeout(Some(Duration::from_millis(100)));
+    let mut lines: Vec<String> = vec![];
+    let mut pending: Vec<u8> = vec![];
+    let mut buf = [0u8; 4096];
+    // stage 0 wait ready, 1 wait nonce 1, 2 wait nonce 2, 3 wait close
+    let mut stage = 0;
+    let mut closed = false;
+    while !closed {
+        match stream.read(&mut buf) {
+            Ok(0) => closed = true,
+            Ok(n) => pending.extend_from_slice(&buf[..n]),
+            Err(e) if e.kind() == std::io::ErrorKind::WouldBlock || e.kind() == std::io::ErrorKind::TimedOut => {
+                if Instant::now() > deadline {
+                    cleanup(&mut child, &path);
+                    return Err(RealErr::Inconclusive(format!("dialog stuck in stage {} until the deadline", stage)));
+                }
+            }
+            Err(_) => closed = true,
+        }
+        while let Some(k) = pending.iter().position(|b| *b == b'\n') {
+            let l = String::from_utf8_lossy(&pending[..k]).to_string();
+            pending.drain(..=k);
+            let mut out: Vec<u8> = vec![];
+            if stage == 0 && l == "ready" {
+                for x in pre_lines {
+                    out.extend(x.as_bytes());
+                    out.push(b'\n');
+                }
+                out.extend(b"cmd:start\n");
+                for x in post_lines {
+                    out.extend(x.as_bytes());
+                    out.push(b'\n');
+                }
+                out.extend(format!("u8:{:x}:a1\n", flag).as_bytes());
+                stage = 1;
+            } else if stage == 1 && l.starts_with("ioport:b:a1:") {
+                out.extend(format!("u8:{:x}:b2\n", flag).as_bytes());
+                stage = 2;
+            } else if stage == 2 && l.starts_with("ioport:b:b2:") {
+                out.extend(b"cmd:stop\n");
+                stage = 3;
+            }
+            if !out.is_empty() {
+                let _ = stream.write_all(&out);
+                let _ = stream.flush();
+            }
+            lines.push(l);
+        }
+    }
+    let _ = wait_deadline(&mut child, deadline.max(Instant::now() + Duration::from_secs(2)));
+    let _ = std::fs::remove_file(&path);
+    if stage != 3 {
+        return Err(RealErr::Inconclusive(format!("the connection closed in stage {} of the dialog", stage)));
+    }
+    Ok(lines)
+}
+
 /// the emulator's outgoing framing, inverted
 pub fn unescape(line: &str) -> String {
     let mut out = String::new();
